@@ -133,6 +133,34 @@ CLAIMED["C14"] = dict(
     technique="Lean 4 proof (node machines + fine-grained network machine, multiset conservation invariants) + regenerated guards + scripted differential",
     design="§3 C14")
 
+CLAIMED["C01"] = dict(
+    text="Lean 4 theorems for every schedule and any number of thieves/pushers/threads, on models with one step per atomic access: the arena "
+         "slot deque conserves tasks (spawned = returned + in flight + resident, incl. growth/compaction under the lock, isolation holes, "
+         "empty proxies), no task handed out twice or lost, the last-task owner/thief arbitration never both take it; the mailed-task proxy is "
+         "claimed by exactly one side and freed exactly once after the winner's last access; the MPSC mailbox loses/duplicates nothing and "
+         "respects FIFO; task_stream lanes conserve tasks and keep the population bit truthful; fold_tree releases the wait node exactly "
+         "once after every leaf; reference vertices never underflow and root 0 implies global quiescence. Tie: generated constants, E-SHIM on "
+         "the whole instrumented runtime with white-box component scenarios whose head/tail/lock/proxy/mailbox traces replay access by access "
+         "on the models (random + bounded-preemption DFS), end-to-end task programs with exactly-once and wait-covers-all monitors.",
+    note="Trusted: Lean kernel, standard axioms, E-SHIM runtime, harness/c01, sampled correspondence. Sequentially consistent interleavings "
+         "only (no TSO layer: a relaxed demotion of the --tail RMW is reported as broken correspondence without a failing input). The "
+         "composition of the containers into the whole dispatcher is covered by end-to-end monitors, not by a theorem.",
+    technique="Lean 4 proof (multiset-conservation invariants over atomic-access-level protocol models) + E-SHIM trace replay + DFS",
+    design="§3 C01")
+CLAIMED["C19"] = dict(
+    text="Lean 4 theorems for any number of callers (<= the generated reference bound), all schedules and throw oracles: collaborative_call_once "
+         "runs the function to success at most once, every normal return saw exactly one success, a throwing attempt's exception reaches only "
+         "its winner and the flag returns to uninitialized so a later/concurrent caller retries, helper counts never carry into the pointer "
+         "bits and the runner is never used after destruction; enumerable_thread_specific: one create_local per thread, every lookup returns "
+         "the thread's own element, no sharing, the open-addressing probe invariant and load <= 1/2 hold, growth preserves all slots, "
+         "iteration visits each element once. Tie: generated constants, E-SHIM access-level replay of the state word / slot claims on the "
+         "models, independent monitors, directed 130-caller saturation schedule, real-library runs.",
+    note="Trusted: Lean kernel, standard axioms, E-SHIM, harness/c19 (harness-local r1 stubs keep the dispatcher's exception protocol), sampled "
+         "correspondence. With more than 128 callers the helper count can carry into the runner pointer (proved for the model, reproduced on "
+         "the header; outside the property's 2-8 thread quantifier, recorded as an observation).",
+    technique="Lean 4 proof (two inductive invariants per protocol, one preservation lemma per program counter) + E-SHIM trace replay",
+    design="§3 C19")
+
 NOT_YET = "check not built yet in this round (planned: DESIGN.md §3); no claim is made"
 
 
